@@ -20,10 +20,60 @@ def memory_model(ctx, want, progs=None, avoid=()):
         core.sample(ctx, p, lo, up, r)
     if "trace" in want:
         core.validate_traces(ctx, progs, res)
+    oracle_selfcheck(ctx, progs, lower, upper, limit=(6 if ctx.tier == "quick" else 120))
     ctx.cov["programs"] += len(progs)
     ctx.cov["evaluations"] += len(progs)
     ctx.cov["distinct_nontrivial"] += nontriv
     return progs, lower, upper, res
+
+
+def ax_eligible(p):
+    """litmus programs of the fragment RC11Ax.tla covers: ld / st / swap / fence, no SeqCst accesses, main = spawn*; join*; ld*"""
+    main = p["threads"][0]
+    k = 0
+    while k < len(main) and main[k]["op"] == "spawn": k += 1
+    while k < len(main) and main[k]["op"] == "join": k += 1
+    if any(i["op"] != "ld" for i in main[k:]) or len(main) > 12:
+        return False
+    for th in p["threads"][1:]:
+        for i in th:
+            if i["op"] not in ("ld", "st", "rmw", "fence") or (i["op"] == "rmw" and i["k"] != "swap"):
+                return False
+    n_writes = sum(1 for th in p["threads"][1:] for i in th if i["op"] in ("st", "rmw"))
+    return not families.has_sc_access(p) and n_writes <= 5
+
+
+def oracle_selfcheck(ctx, progs, lower, upper, limit=60):
+    """LoomSem's view machine vs. the axiomatic RC11 transcription on the eligible programs.
+    A disagreement is a bug in the specifications: tool error, never a violation."""
+    import shutil
+    import random
+    idx = [i for i, p in enumerate(progs) if ax_eligible(p)]
+    random.Random(ctx.seed).shuffle(idx)       # a different sample of the eligible programs per seed
+    idx = sorted(idx[:limit])
+    if not idx:
+        return
+    sub = [progs[i] for i in idx]
+    for val, ref, lab in (("TRUE", lower, "lower"), ("FALSE", upper, "upper")):
+        work = os.path.join(ctx.work, "ax_" + lab)
+        os.makedirs(work, exist_ok=True)
+        with open(os.path.join(work, "MCProgsMod.tla"), "w") as f:
+            f.write(dsl.render_progs_module("MCProgsMod", sub))
+        shutil.copy(os.path.join(tlc.SPECS, "MCAx.tla"), os.path.join(work, "MCAx.tla"))
+        r = tlc.run_tlc(work, "MCAx", os.path.join(tlc.SPECS, f"MCAx_{val}.cfg"), workers=ctx.tlc_workers, timeout=1500)
+        if "Model checking completed. No error has been found." not in r["text"]:
+            open(os.path.join(work, "tlc_error.log"), "w").write(r["text"])
+            raise tlc.ToolError(f"RC11Ax failed (see {work}/tlc_error.log)")
+        ctx.add_tlc(r, "RC11Ax_" + lab)
+        outs = [set() for _ in sub]
+        for o in tlc.parse_out_lines(r["text"]):
+            outs[o["p"] - 1].add(tlc.canon_outcome(o)[1])
+        for k, i in enumerate(idx):
+            if outs[k] != ref[i].ok:
+                raise tlc.ToolError("oracle self-inconsistency: the view machine and axiomatic RC11 disagree on "
+                                    f"[{dsl.pretty(progs[i])}] ({lab}): only view machine {sorted(ref[i].ok - outs[k])[:3]}, "
+                                    f"only axiomatic {sorted(outs[k] - ref[i].ok)[:3]}")
+    ctx.cov["oracle_selfcheck_programs"] = len(idx)
 
 
 def C02(ctx):
